@@ -12,6 +12,7 @@ use std::iter;
 use std::sync::Arc;
 
 use crate::root_compilation_scope::Interner;
+use crate::util::lazy_bigint::LazyBigint;
 
 use crate::util::str_escapes::{apply_brace_escape, apply_escapes};
 use crate::xexpr::{OverloadSpecialization, XExpr};
@@ -639,18 +640,17 @@ impl<W, R, T> CompilationScope<'_, W, R, T> {
                 if to_parse.contains('_') {
                     to_parse = Cow::Owned(to_parse.replace('_', ""));
                 }
-                if let Some(whole) = to_parse
-                    .parse::<i128>()
+                if let Some(whole) = LazyBigint::from_str_radix(&to_parse, 10)
                     .ok()
                     .or_else(|| {
                         to_parse
                             .strip_prefix("0x")
-                            .and_then(|s| i128::from_str_radix(s, 16).ok())
+                            .and_then(|s| LazyBigint::from_str_radix(s, 16).ok())
                     })
                     .or_else(|| {
                         to_parse
                             .strip_prefix("0b")
-                            .and_then(|s| i128::from_str_radix(s, 2).ok())
+                            .and_then(|s| LazyBigint::from_str_radix(s, 2).ok())
                     })
                 {
                     return Ok(XStaticExpr::LiteralInt(whole));
